@@ -7,6 +7,7 @@
 // apis / failmask bits: 1 Clipper64 (Paths64, open)  2 Clipper64 (PolyTree64, open)  4 ClipperD (PathsD, open)  8 ClipperD (PolyTreeD, open)
 //   16 BooleanOp64  32 BooleanOp_PolyTree64  64 BooleanOpD  128 BooleanOp_PolyTreeD   (exports: return value 0)
 //   256 a NoClip run returned a non-empty solution     512 the overloads disagree about success
+//   1024 Clipper64 fed through a ReuseableDataContainer64 (fresh object, then Clear + attach again, tree overload)   2048 one Clipper64 executed three times (Clear + same paths before the third)
 // paths are <n> <k> x y ... (integers).  GEN: cases are drawn by a splitmix64 stream from <seed> (the seeds come from the check's rng);
 // EXH: every open polyline of 3 and 4 lattice points (consecutive points distinct) on the (g+1)x(g+1) lattice against four fixed
 // clip shapes, Intersection/Union/Difference/Xor, Clipper64 Paths64 overload.
@@ -91,6 +92,26 @@ unsigned run_case(const Case& c, unsigned apis, bool& nonempty) {
       Arr<double> sol, solo;
       int rc = BooleanOp_PolyTreeD((uint8_t)c.ct, (uint8_t)c.fr, s.p, o.p, cl.p, sol.p, solo.p, 2, true, false); ++nrun; nok += (rc == 0);
       if (rc != 0) fail |= 128;
+    }
+  }
+  if (apis & 1024) {       // the same paths through a ReuseableDataContainer64, attached to a fresh and to an already used object
+    ReuseableDataContainer64 rd;
+    rd.AddPaths(c.S, PathType::Subject, false); rd.AddPaths(c.O, PathType::Subject, true); rd.AddPaths(c.C, PathType::Clip, false);
+    Clipper64 k; k.AddReuseableData(rd);
+    Paths64 a, b; bool ok = k.Execute(ct, fr, a, b); ++nrun; nok += ok;
+    if (!ok) fail |= 1024;
+    k.Clear(); k.AddReuseableData(rd);
+    PolyTree64 t; ok = k.Execute(ct, fr, t, b); ++nrun; nok += ok;
+    if (!ok) fail |= 1024;
+    if (c.ct == 0 && (npts(a) + npts(b) + t.Count())) fail |= 256;
+  }
+  if (apis & 2048) {       // one object used repeatedly: Execute, Execute again, Clear + the same paths, Execute
+    Clipper64 k; k.AddSubject(c.S); k.AddOpenSubject(c.O); k.AddClip(c.C);
+    Paths64 a, b;
+    for (int rep = 0; rep < 3; ++rep) {
+      bool ok = k.Execute(ct, fr, a, b); ++nrun; nok += ok;
+      if (!ok) fail |= 2048;
+      if (rep == 1) { k.Clear(); k.AddSubject(c.S); k.AddOpenSubject(c.O); k.AddClip(c.C); }
     }
   }
   if (nok != 0 && nok != nrun) fail |= 512;
